@@ -10,7 +10,7 @@
     ([IdsOK], [OrdersOK]) — see the NOT PROVED notes at the end. *)
 From Coq Require Import String Ascii List Bool Arith ZArith.
 From LC Require Import MathDefs ValidDefs ValidSpec ValidLeaf ValidMathProofs ValidCompProofs ValidUnitsProofs ValidProofs
-  ValidCitedProofs ValidCycleProofs ValidWitness.
+  ValidCitedProofs ValidCited2Proofs ValidCycleProofs ValidWitness ValidXmlName.
 Import ListNotations.
 Local Open Scope string_scope.
 Local Open Scope list_scope.
@@ -56,6 +56,19 @@ Theorem C04_units_pass : forall W, units_stay_local (model_at W 0) ->
    /\ ImportsDistinct (model_at W 0) /\ UnitsAcyclic (model_at W 0)).
 Proof. exact ValidUnitsProofs.units_pass_nil. Qed.
 Print Assumptions C04_units_pass.
+
+(** The two model-wide passes, one step towards their declarative form: checkUniqueIds is silent iff every id it requires
+    to be an XML name is one and the ids it collects are pairwise distinct; checkUniqueResetOrders is silent iff the orders
+    within every group of its order map are pairwise distinct. *)
+Theorem C04_ids_pass : forall fx m,
+  check_unique_ids fx m = [] <-> ia_issues (model_idacc fx m) = [] /\ NoDup (ia_ids (model_idacc fx m)).
+Proof. exact ValidProofs.ids_pass_nil. Qed.
+Print Assumptions C04_ids_pass.
+
+Theorem C04_orders_pass : forall ws m,
+  check_unique_reset_orders ws m = [] <-> Forall (fun kv => NoDup (snd kv)) (build_omap ws m).
+Proof. exact ValidProofs.orders_pass_nil. Qed.
+Print Assumptions C04_orders_pass.
 
 (** The cycle detector is total and exact on EVERY units reference graph, cyclic or not: the recursion never exceeds
     the fuel validateModel gives it, and a cycle issue is raised iff a cycle can be reached from the units. *)
@@ -166,6 +179,40 @@ Theorem C04_rule_cited_component_name : forall fx ueq early W c,
 Proof. exact ValidCitedProofs.component_name_cited. Qed.
 Print Assumptions C04_rule_cited_component_name.
 
+Theorem C04_rule_cited_units : forall fx ueq early W u R,
+  In u (m_units (model_at W 0)) -> units_violation (model_at W 0) u R -> In (Error, R) (validate fx ueq early W).
+Proof. exact ValidCited2Proofs.units_rule_cited. Qed.
+Print Assumptions C04_rule_cited_units.
+
+(** a cycle of units references reachable from a units of the model is cited, whatever else is wrong with the model *)
+Theorem C04_rule_cited_units_cycle : forall fx ueq early W u, units_stay_local (model_at W 0) ->
+  In u (m_units (model_at W 0)) -> first_named (model_at W 0) u -> reaches_cycle (model_at W 0) (u_name u) ->
+  In (Error, V_UNIT_UNITS_CIRCULAR_REFERENCE) (validate fx ueq early W).
+Proof. exact ValidCited2Proofs.units_cycle_cited. Qed.
+Print Assumptions C04_rule_cited_units_cycle.
+
+Theorem C04_rule_cited_parentless_equivalence : forall fx ueq early W me e,
+  In me (model_locs (model_at W 0)) -> l_import me = false -> In e (v_eqs (l_var me)) ->
+  lookup_var (model_locs (model_at W 0)) (e_to e) = None ->
+  In (Error, V_MAP_VARIABLES_VARIABLE1_ATTRIBUTE) (validate fx ueq early W).
+Proof. exact ValidCited2Proofs.parentless_equivalence_cited. Qed.
+Print Assumptions C04_rule_cited_parentless_equivalence.
+
+Theorem C04_rule_cited_unreachable_equivalence : forall fx ueq W me e o,
+  In me (model_locs (model_at W 0)) -> l_import me = false -> In e (v_eqs (l_var me)) ->
+  lookup_var (model_locs (model_at W 0)) (e_to e) = Some o -> ~ (Sibling me o \/ ChildOf me o \/ ChildOf o me) ->
+  In (Error, V_MAP_VARIABLES_ELEMENT) (validate fx ueq false W).
+Proof. exact ValidCited2Proofs.unreachable_equivalence_cited. Qed.
+Print Assumptions C04_rule_cited_unreachable_equivalence.
+
+Theorem C04_rule_cited_incompatible_units : forall fx ueq early W me e o un un2,
+  In me (model_locs (model_at W 0)) -> l_import me = false -> In e (v_eqs (l_var me)) ->
+  lookup_var (model_locs (model_at W 0)) (e_to e) = Some o -> l_import o = false ->
+  v_units (l_var me) = Some un -> v_units (l_var o) = Some un2 -> ueq W un un2 = Some false ->
+  In (Error, V_MAP_VARIABLES_ELEMENT) (validate fx ueq early W).
+Proof. exact ValidCited2Proofs.incompatible_units_cited. Qed.
+Print Assumptions C04_rule_cited_incompatible_units.
+
 (** MathML faults at any depth of a document are seen: unsupported elements, unknown <ci>, <cn> units. *)
 Theorem C04_math_any_depth : forall q vars units d,
   is_mathml_el "math" d = true ->
@@ -188,6 +235,13 @@ Theorem C04_math_is_C01_transcription : forall vars units root,
   val_math_env_q false vars units root = MathDefs.val_math_env vars units root.
 Proof. exact ValidMathProofs.val_math_env_q_false. Qed.
 Print Assumptions C04_math_is_C01_transcription.
+
+(** The table of isNameStartChar / isNameChar on packed UTF-8 bytes is the NameStartChar / NameChar production of the
+    XML recommendation, for every code point of the basic multilingual plane (exhaustive computation). *)
+Theorem C04_xml_name_table_bmp : forall cp, (cp < 0x10000)%N ->
+  is_name_start_char (utf8_pack cp) = name_start_cp cp /\ is_name_char (utf8_pack cp) = name_char_cp cp.
+Proof. exact ValidXmlName.xml_name_table_bmp. Qed.
+Print Assumptions C04_xml_name_table_bmp.
 
 (** REFUTED on the tree before fixes/C04-*.diff (the witnesses replayed on the real library are the findings):
     soundness — accepted although a rule is broken: duplicate reset orders across an indirectly connected variable set;
@@ -218,5 +272,5 @@ Print Assumptions C04_validate_complete_unfixed_refuted.
    NOT PROVED: the equivalence for worlds whose model 0 has RESOLVED imports (validateUnits / validateComponent then
    recurse into the attached models); what is proved there is C04_location_free_imported_component (issues of the import
    target are reported) and the refutation for its children.
-   NOT PROVED: that the table is_name_start_char / is_name_char on packed UTF-8 bytes equals the code-point ranges of
-   the XML recommendation (compared with the implementation byte string by byte string in the correspondence run). *)
+   NOT PROVED (kernel-checked once, too slow for the build): C04_xml_name_table_bmp for the supplementary planes
+   (0x10000 .. 0x10FFFF; `sweep 0x110000 = (0x110000, true)` by vm_compute takes minutes). *)
